@@ -60,6 +60,7 @@ type Backend struct {
 	next   *Script
 	seen   []Seen
 	Hits   int
+	active int
 	Probes int
 	Health int // status answered to active probes (0 = 200)
 }
@@ -116,10 +117,30 @@ func (b *Backend) HitCount() int {
 	return b.Hits
 }
 
+// WaitIdle waits until no request is being handled (accounting of an exchange whose
+// client side has already finished may still be in progress).
+func (b *Backend) WaitIdle() {
+	for i := 0; i < 5000; i++ {
+		b.mu.Lock()
+		n := b.active
+		b.mu.Unlock()
+		if n == 0 {
+			return
+		}
+		time.Sleep(time.Millisecond)
+	}
+}
+
 func (b *Backend) serve(w http.ResponseWriter, r *http.Request) {
 	b.mu.Lock()
 	sc := b.next
+	b.active++
 	b.mu.Unlock()
+	defer func() {
+		b.mu.Lock()
+		b.active--
+		b.mu.Unlock()
+	}()
 	if r.URL.Path == ProbePath {
 		b.mu.Lock()
 		b.Probes++
